@@ -399,7 +399,7 @@ def step (s : St) : List String → St × String
   | "rawcfg" :: ws =>
     match run (do let t ← pThrCfg; let r ← pRawObs; pure (t, r)) ws with
     | some (t, r) =>
-      match r.build t with
+      match r.buildV t with
       | some o => ({ s with o := o }, "ok")
       | none => ({ s with o := .null }, "rejected")
     | none => (s, "bad-op")
